@@ -27,6 +27,7 @@ therefore do not matter.  Anything else is kept literally.
 import ast
 import copy
 
+from . import alias as _alias
 from .astutil import call_name
 from .core import AnalysisError
 
@@ -84,7 +85,9 @@ def _assigned_names(stmts_):
 
 
 _NEVER_NONE = (ast.BinOp, ast.Compare, ast.List, ast.Tuple, ast.Dict, ast.Set, ast.JoinedStr, ast.ListComp)
-_MODULE_NAMES = {"np", "numpy", "warnings", "math", "sys", "os", "re", "itertools", "logging", "struct", "self", "cls", "nx", "Chem", "AllChem"}
+# names of modules: a method call on them changes no local object.  (`self` / `cls` are objects: `self.rescale()`, `setattr(self, ..)`
+# may change any field)
+_MODULE_NAMES = {"np", "numpy", "warnings", "math", "sys", "os", "re", "itertools", "logging", "struct", "nx", "Chem", "AllChem"}
 
 
 def _mutated_names(st):
@@ -138,16 +141,29 @@ def _symconst(e):
     return None
 
 
+def _comparable(consts):
+    """can equality among these named constants be decided by their identity: all literals, or all members of ONE enumeration
+    (a member and a literal, or members of two IntEnums, may be equal although they are spelled differently)"""
+    kinds = {c[0] for c in consts}
+    if kinds == {"lit"}:
+        return True
+    if kinds == {"member"}:
+        return len({c[1].rsplit(".", 1)[0] for c in consts}) == 1
+    return False
+
+
 def fold(e):
     """look-ups of named constants in literal tables: `{K1: v1, K2: v2}[K2]` -> v2, `(a, b)[1]` -> b (after substitution)"""
     class F(ast.NodeTransformer):
         def visit_Subscript(self, n):
             self.generic_visit(n)
             if isinstance(n.ctx, ast.Load) and isinstance(n.value, ast.Dict) and _symconst(n.slice) is not None \
-                    and all(k is not None and _symconst(k) is not None for k in n.value.keys):
-                for k, v in zip(n.value.keys, n.value.values):
-                    if _symconst(k) == _symconst(n.slice):
-                        return v
+                    and all(k is not None and _symconst(k) is not None for k in n.value.keys) \
+                    and _comparable([_symconst(n.slice)] + [_symconst(k) for k in n.value.keys]):
+                # a repeated key keeps its LAST value
+                hit = [v for k, v in zip(n.value.keys, n.value.values) if _symconst(k) == _symconst(n.slice)]
+                if hit:
+                    return hit[-1]
             if isinstance(n.ctx, ast.Load) and isinstance(n.value, (ast.Tuple, ast.List)) and isinstance(n.slice, ast.Constant) \
                     and isinstance(n.slice.value, int) and not isinstance(n.slice.value, bool) and -len(n.value.elts) <= n.slice.value < len(n.value.elts) \
                     and not any(isinstance(x, ast.Starred) for x in n.value.elts):
@@ -187,12 +203,23 @@ def _known_truth(test):
         l, r, op = _symconst(test.left), test.comparators[0], test.ops[0]
         if l is not None:
             if isinstance(op, (ast.Eq, ast.NotEq)) and _symconst(r) is not None:
-                eq = l == _symconst(r)
+                if l == _symconst(r):
+                    eq = True
+                elif _comparable([l, _symconst(r)]):
+                    eq = False
+                else:
+                    return None      # `CigarOp.SOFT_CLIP == 4`: not decided by the spelling
                 return eq if isinstance(op, ast.Eq) else not eq
             if isinstance(op, (ast.In, ast.NotIn)):
                 items = r.elts if isinstance(r, (ast.Tuple, ast.List, ast.Set)) else r.keys if isinstance(r, ast.Dict) else None
                 if items is not None and all(i is not None and _symconst(i) is not None for i in items):
-                    inside = l in [_symconst(i) for i in items]
+                    cs = [_symconst(i) for i in items]
+                    if l in cs:
+                        inside = True
+                    elif _comparable([l] + cs):
+                        inside = False
+                    else:
+                        return None
                     return inside if isinstance(op, ast.In) else not inside
     if isinstance(test, ast.Compare) and len(test.ops) == 1 and isinstance(test.ops[0], (ast.Is, ast.IsNot)) \
             and isinstance(test.comparators[0], ast.Constant) and test.comparators[0].value is None:
@@ -233,6 +260,26 @@ _UFUNCS2 = {"add", "subtract", "multiply", "divide", "true_divide", "floor_divid
             "clip", "take", "choose", "compress"}
 _UFUNCS1 = {"abs", "absolute", "negative", "sqrt", "square", "exp", "log", "sin", "cos", "tan", "floor", "ceil", "rint", "round",
             "around", "sign", "invert", "logical_not", "isnan", "isfinite", "cumsum", "cumprod", "conjugate", "reciprocal", "copyto"}
+
+
+_PLAIN_MANAGERS = {"open", "warnings.catch_warnings", "np.errstate", "numpy.errstate", "NamedTemporaryFile", "tempfile.NamedTemporaryFile",
+                   "TemporaryDirectory", "tempfile.TemporaryDirectory", "io.StringIO", "io.BytesIO", "StringIO", "BytesIO", "gzip.open",
+                   "tarfile.open", "zipfile.ZipFile", "contextlib.nullcontext", "nullcontext", "contextlib.redirect_stdout"}
+
+
+def _plain_manager(e):
+    """a context manager known to let exceptions pass (files, warnings filters, numpy error state, Cython's nogil)"""
+    if isinstance(e, ast.Name):
+        return e.id in ("nogil", "gil")
+    if isinstance(e, ast.Call):
+        return (call_name(e) or "") in _PLAIN_MANAGERS
+    return False
+
+
+_FIRST_ARG_WRITERS = {"copyto", "put", "place", "putmask", "put_along_axis", "fill_diagonal", "shuffle"}
+# position of the `out` parameter of ndarray methods when it is given positionally
+_METHOD_OUT_POSITION = {"clip": 2, "take": 2, "choose": 1, "compress": 2, "sum": 2, "prod": 2, "mean": 2, "cumsum": 2, "cumprod": 2, "round": 1,
+                        "any": 1, "all": 1, "max": 1, "min": 1, "argmax": 1, "argmin": 1, "dot": 1, "var": 2, "std": 2, "ptp": 1, "trace": 4}
 
 
 def _is_immutable(e):
@@ -370,6 +417,7 @@ def _summarize(func, mutators=None, env0=None):
     if _has_yield(func):
         raise Unsupported("generator function")
 
+    local_callables = _alias.local_callable_names(func)
     pc = []   # branch conditions under which the current block runs (raising guards before it are implicit by order)
 
     def guard(test):
@@ -489,8 +537,16 @@ def _summarize(func, mutators=None, env0=None):
             fn = call_name(c_) or ""
             if fn.startswith(("np.", "numpy.")) and len(c_.args) >= 3 and fn.split(".")[-1] in _UFUNCS2:
                 outs.append(c_.args[2])
-            if fn.startswith(("np.", "numpy.")) and len(c_.args) >= 2 and fn.split(".")[-1] in _UFUNCS1:
+            if fn.startswith(("np.", "numpy.")) and len(c_.args) >= 2 and fn.split(".")[-1] in _UFUNCS1 and fn.split(".")[-1] != "copyto":
                 outs.append(c_.args[1])
+            # functions that write into their FIRST argument, the out position of array methods, setattr
+            if fn.startswith(("np.", "numpy.")) and c_.args and (fn.split(".")[-1] in _FIRST_ARG_WRITERS or fn.endswith(".at")):
+                outs.append(c_.args[0])
+            if fn in ("setattr", "delattr") and c_.args:
+                outs.append(c_.args[0])
+            if isinstance(c_.func, ast.Attribute) and c_.func.attr in _METHOD_OUT_POSITION and len(c_.args) > _METHOD_OUT_POSITION[c_.func.attr] \
+                    and not fn.startswith(("np.", "numpy.")):
+                outs.append(c_.args[_METHOD_OUT_POSITION[c_.func.attr]])
             for o in outs:
                 base = o
                 while isinstance(base, (ast.Subscript, ast.Attribute)):
@@ -508,8 +564,16 @@ def _summarize(func, mutators=None, env0=None):
         for i, st in enumerate(block):
             if isinstance(st, ast.Expr) and isinstance(st.value, ast.Constant):
                 continue
-            if isinstance(st, (ast.Import, ast.ImportFrom, ast.Pass, ast.Global, ast.Nonlocal, ast.Assert,
-                               ast.FunctionDef, ast.AsyncFunctionDef, ast.ClassDef)):
+            if isinstance(st, (ast.FunctionDef, ast.AsyncFunctionDef)):
+                # a nested function may change what it captured whenever it is called: from here on those objects are unknown
+                own = {a.arg for a in ast.walk(st.args) if isinstance(a, ast.arg)}
+                plain = {n.id for n in ast.walk(st) if isinstance(n, ast.Name) and isinstance(n.ctx, (ast.Store, ast.Del))}
+                nonloc = {nm_ for n in ast.walk(st) if isinstance(n, (ast.Nonlocal, ast.Global)) for nm_ in n.names}
+                captured = (_mutated_names(st) | _assigned_names(st.body) - plain | nonloc) - own - (plain - nonloc)
+                for n in sorted(captured):
+                    mutate(n, _call("__mut__", _call("__closure__", ast.Constant(st.name)), ast.Constant(n)), env)
+                continue
+            if isinstance(st, (ast.Import, ast.ImportFrom, ast.Pass, ast.Global, ast.Nonlocal, ast.Assert, ast.ClassDef)):
                 continue
             if isinstance(st, ast.Return):
                 return env, subst(st.value, env) if st.value is not None else ast.Constant(None)
@@ -529,10 +593,13 @@ def _summarize(func, mutators=None, env0=None):
                 val = subst(st.value, env)
                 for t in targets:
                     _bind(t, copy.deepcopy(val) if len(targets) > 1 else val, env)
-                # names of one object: `a = b`, `a = b = f()`
+                # names of one object: `a = b`, `a = b = f()`, and names whose objects may share storage: a view `a = b[:]`,
+                # a part `a = b.coord`, a container `a = [b]`, the result of an unknown call on b (alias.roots)
                 same = [t.id for t in targets if isinstance(t, ast.Name)]
-                if isinstance(st.value, ast.Name):
-                    same.append(st.value.id)
+                if same and not _is_immutable(val):
+                    same.extend(sorted(_alias.roots(st.value, None, local_callables) - set(same) - _MODULE_NAMES - {"self", "cls"}))
+                    if isinstance(st.value, ast.Name) and st.value.id not in same:
+                        same.append(st.value.id)
                 if len(same) > 1 and not _is_immutable(val):
                     link(env, same)
                 effects_in_value(st.value, env)
@@ -574,7 +641,10 @@ def _summarize(func, mutators=None, env0=None):
                         _bind(t, name("__deleted__"), env)
                 continue
             if isinstance(st, (ast.With, ast.AsyncWith)):
-                # transparent: the managed block runs exactly once
+                # transparent: the managed block runs exactly once - unless the manager may swallow an exception raised inside
+                # (contextlib.suppress, a user-defined __exit__): then a refusal in the block is not a refusal of the function
+                if not all(_plain_manager(it.context_expr) for it in st.items) and any(isinstance(x, ast.Raise) for b in st.body for x in ast.walk(b)):
+                    raise Unsupported(f"raise under a context manager that may suppress it at line {getattr(st, 'lineno', '?')}")
                 for it in st.items:
                     if it.optional_vars is not None:
                         _bind(it.optional_vars, _call("__enter__", subst(it.context_expr, env)), env)
@@ -1116,24 +1186,89 @@ def field_of(summary, obj, attr):
     return None
 
 
-def local_value(func, var):
+def local_value(func, var, descend=True):
     """value of a local after the stretch of top-level statements of `func` that builds it (from its first assignment to the
-    last statement that stores it), every other name left symbolic - cheap and independent of the rest of a long function"""
-    def stores(st):
-        return any(isinstance(n, ast.Name) and n.id == var and isinstance(n.ctx, ast.Store) for n in ast.walk(st))
+    last statement that stores it OR may change its object in place: `var[:] = ..`, `var.fill(..)`, `out=var`, a store through
+    a name that may refer to the same object), composed with the earlier statements of the function that bind or change what this stretch reads
+    (a backward slice): the value is an expression in the function's inputs, and independent of the rest of a long function."""
+    grp = _alias.groups(func)
+    same = _alias.closure_of({var}, grp)
 
-    def innermost(block):
+    def stores(st):
+        if any(isinstance(n, ast.Name) and n.id == var and isinstance(n.ctx, ast.Store) for n in ast.walk(st)):
+            return True
+        return bool(_inplace_written(st) & same)
+
+    def innermost(block, before):
         """the innermost block all of whose stores of var sit in one of its statements' own nesting"""
         idx = [k for k, st in enumerate(block) if stores(st)]
         if len(idx) == 1 and not (isinstance(block[idx[0]], (ast.Assign, ast.AugAssign, ast.AnnAssign))):
             st = block[idx[0]]
             subs = [getattr(st, f) for f in ("body", "orelse", "finalbody") if isinstance(getattr(st, f, None), list)]
             holding = [b for b in subs if any(stores(x) for x in b)]
-            if len(holding) == 1 and isinstance(st, (ast.If, ast.With)):
-                return innermost(holding[0])
-        return block, idx
-    block, idx = innermost(func.body)
+            if len(holding) == 1 and isinstance(st, (ast.If, ast.With)) and descend:
+                return innermost(holding[0], before + list(block[:idx[0]]))
+        return block, idx, before + (list(block[:idx[0]]) if idx else [])
+    block, idx, before = innermost(func.body, [])
     if not idx:
         return None
-    sm = summarize_block(block[idx[0]:idx[-1] + 1])
+    stretch = list(block[idx[0]:idx[-1] + 1])
+
+    def rebinds(st):
+        return {n.id for n in ast.walk(st) if isinstance(n, ast.Name) and isinstance(n.ctx, (ast.Store, ast.Del))}
+
+    def reads(st):
+        return {n.id for n in ast.walk(st) if isinstance(n, ast.Name)}
+    # backward slice: an earlier statement belongs to the computation when it binds, or may change in place, something the
+    # statements already taken read (directly or through a name that may refer to the same object)
+    needed = set()
+    for st in stretch:
+        needed |= reads(st)
+    taken = [False] * len(before)
+    changed = True
+    while changed:
+        changed = False
+        for k in range(len(before) - 1, -1, -1):
+            if not taken[k] and (rebinds(before[k]) & needed or _inplace_written(before[k]) & _alias.closure_of(needed, grp)):
+                taken[k] = True
+                needed |= reads(before[k])
+                changed = True
+    sm = summarize_block([st for k, st in enumerate(before) if taken[k]] + stretch)
     return sm.env.get(var)
+
+
+def _inplace_written(st):
+    """names whose OBJECT the statement may change (not the binding of the name): stores into it, augmented assignments as
+    written in the source, mutating calls, out= arguments"""
+    out = set(_mutated_names(st)) | _out_written(st)
+    for n in ast.walk(st):
+        if isinstance(n, (ast.Assign, ast.AugAssign, ast.Delete, ast.AnnAssign)):
+            for t in (n.targets if isinstance(n, (ast.Assign, ast.Delete)) else [n.target]):
+                for x in ([t] if not isinstance(t, (ast.Tuple, ast.List)) else list(ast.walk(t))):
+                    if isinstance(x, (ast.Subscript, ast.Attribute)):
+                        b = _alias.base_name(x)
+                        if b:
+                            out.add(b)
+            if isinstance(n, ast.AugAssign) and isinstance(n.target, ast.Name) and not getattr(n, "_rebind", False):
+                out.add(n.target.id)
+    return out
+
+
+def _out_written(st):
+    """names handed to a call as the array to write into (`out=x`, np.copyto(x, ..), x.clip(a, b, x))"""
+    out = set()
+    for c_ in ast.walk(st):
+        if not isinstance(c_, ast.Call):
+            continue
+        fn = call_name(c_) or ""
+        outs = [k.value for k in c_.keywords if k.arg == "out"]
+        if fn.startswith(("np.", "numpy.")) and c_.args and (fn.split(".")[-1] in _FIRST_ARG_WRITERS or fn.endswith(".at")):
+            outs.append(c_.args[0])
+        if isinstance(c_.func, ast.Attribute) and c_.func.attr in _METHOD_OUT_POSITION and len(c_.args) > _METHOD_OUT_POSITION[c_.func.attr] \
+                and not fn.startswith(("np.", "numpy.")):
+            outs.append(c_.args[_METHOD_OUT_POSITION[c_.func.attr]])
+        for o in outs:
+            b = _alias.base_name(o)
+            if b:
+                out.add(b)
+    return out
